@@ -241,11 +241,72 @@ def strat_ens_v1(tier):
     return _case("ens", 1, chem.ensemble_recipe(max_atoms=8, attribs=False).map(_v1))
 
 
+def check_bundled(r) -> list[Fail]:
+    """real molecules: every record of a bundled library is re-stored (v2, and as a generated ensemble) and read back"""
+    import molli as ml
+    from vf.core import tally
+
+    fails: list[Fail] = []
+    src = _lib("mol", str(getattr(ml.files, r["file"])))
+    with src.reading():
+        keys = sorted(src.keys())
+        keys = [k for i, k in enumerate(keys) if i % r["nshards"] == r["shard"]]
+        mols = [src[k] for k in keys]
+    p1, p2 = _path("mlib"), _path("clib")
+    try:
+        lib = _lib("mol", p1, readonly=False, bufsize=BUFS[r["buf"]])
+        clib = _lib("ens", p2, readonly=False, bufsize=BUFS[r["buf"]])
+        enss = []
+        with lib.writing(), clib.writing():
+            for k, m in zip(keys, mols):
+                lib[k] = m
+                e = ml.ConformerEnsemble(m, n_conformers=2, coords=[m.coords, m.coords * 0.5], atomic_charges=[m.atomic_charges, m.atomic_charges + 0.25], weights=[1.0, 2.5])
+                e.attrib.update(m.attrib)
+                enss.append(e)
+                clib[k] = e
+        lib2, clib2 = _lib("mol", p1), _lib("ens", p2)
+        with lib2.reading(), clib2.reading():
+            if set(lib2.keys()) != set(keys) or set(clib2.keys()) != set(keys):
+                fails.append(Fail("bundled:key-set-differs", r["file"]))
+            for k, m, e in zip(keys, mols, enss):
+                for kind, exp_obj, got in (("mol", m, lib2[k]), ("ens", e, clib2[k])):
+                    d = chem.snap_diff(chem.snapshot(exp_obj, attrib_f32=True, f32=True), chem.snapshot(got))
+                    if d is not None:
+                        head = d.split(":")[0]
+                        field = head.split("[")[0] + ("." + head.split(".")[-1] if head.split("[")[0] in ("atoms", "bonds") and "." in head else "")
+                        fails.append(Fail(f"bundled:{kind}:field-differs:{field}", f"{r['file']}[{k!r}]: {d}"))
+                        break
+        tally(units=max(0, 2 * len(keys) - 1), nontrivial_keys=[(r["file"], k, kind) for k in keys for kind in ("mol", "ens")])
+    finally:
+        for p_ in (p1, p2):
+            try:
+                os.unlink(p_)
+            except OSError:
+                pass
+    seen, out = set(), []
+    for f in fails:
+        if f.sig not in seen:
+            seen.add(f.sig)
+            out.append(f)
+    return out
+
+
+def enum_bundled(tier, shard, nshards):
+    i = 0
+    for fl in ("tiny_bpa_raw_conf", "box_no_conf", "cinchonidine_no_conf", "fletcher_phosphoramidite"):
+        for sh in range(4):
+            if i % nshards == shard:
+                yield {"file": fl, "shard": sh, "nshards": 4, "buf": i % 4}
+            i += 1
+
+
 _RULE = ("1-3 generated objects per library (0-14/40 atoms, all elements, every enum member, None/'' labels, nested attributes incl. bytes / numpy arrays / int keys, "
          "NaN / inf / signed-zero / 1e30 coordinates, 0-4 conformers), bufsize from {-1,0,64,1e6}; non-trivial = >=1 atom and at least one of: bond, non-default enum, "
          "non-empty attrib, isotope, NaN coordinate, >=2 conformers; distinct = canonical recipe hash")
 
 LEGS = [
+    Leg("bundled", check_bundled, lambda r: (False, ["file=" + r["file"]]), enumerate=enum_bundled, exhaustive=True, shards={"quick": 16, "thorough": 16},
+        rule="EVERY molecule of the 4 bundled libraries (2 legacy v1, 2 current; 213 molecules of 48-114 atoms) re-stored in a fresh MoleculeLibrary and, as a two-conformer ensemble with distinct charges / weights, in a ConformerLibrary; read back through new handles; evaluations = records"),
     Leg("mol_v2", check, classify, strategy=strat_mol_v2, n={"quick": 2500, "thorough": 40000}, shards={"quick": 16, "thorough": 32}, rule=_RULE),
     Leg("ens_v2", check, classify, strategy=strat_ens_v2, n={"quick": 1200, "thorough": 20000}, shards={"quick": 16, "thorough": 32}, rule=_RULE),
     Leg("mol_v1", check, classify, strategy=strat_mol_v1, n={"quick": 500, "thorough": 8000}, shards={"quick": 8, "thorough": 16}, rule="legacy encoding (file magic ML10Library), recipes restricted to the v1 schema; " + _RULE),
